@@ -144,6 +144,10 @@ type Result struct {
 	Sched      []int // explicit schedule taken (RLE pairs task,count) in mode G
 	Trace      []string
 	Diverged   bool // replayed schedule did not fit
+	// Poisoned: the run ended with task goroutines still alive (deadlock
+	// verdict). This process must not execute another run: a leaked goroutine
+	// that is woken later would call into the next run's simulator.
+	Poisoned bool
 }
 
 // ---------------------------------------------------------------------------
@@ -242,14 +246,15 @@ func sortedKeys(m map[int32]int) []int32 {
 
 // event kinds beyond the shim's (which occupy 0..6) and the navigator's
 const (
-	evNavBase = 100 // + world method
-	evOpBegin = 200
-	evOpEnd   = 201
-	evLoadIn  = 202
-	evLoadOK  = 203
-	evLoadErr = 204
-	evDone    = 205
-	evLoadMid = 206
+	evNavBase  = 100 // + world method
+	evOpBegin  = 200
+	evOpEnd    = 201
+	evLoadIn   = 202
+	evLoadOK   = 203
+	evLoadErr  = 204
+	evDone     = 205
+	evLoadMid  = 206
+	evExtBlock = 207
 )
 
 func kindName(k int) string {
@@ -304,6 +309,40 @@ type Sim struct {
 	current atomic.Int32
 	toSched chan ymsg
 	g       *gstate
+	// degraded is set once a task was found blocked on a primitive the simulator
+	// does not model (a channel, a Cond, a WaitGroup introduced by an edit): from
+	// then on two tasks may physically run at once for short stretches, and the
+	// caller of a hook is identified by its goroutine id instead of by `current`.
+	degraded atomic.Bool
+	// what the scheduler is currently waiting for (watchdog input)
+	waitTask atomic.Int32
+	waitSeq  atomic.Uint64
+}
+
+// who identifies the task on whose goroutine the caller runs (-1: main).
+func (s *Sim) who() int32 {
+	if !s.degraded.Load() {
+		return s.current.Load()
+	}
+	me := goid()
+	for _, t := range s.tasks {
+		if t.goid.Load() == me {
+			return t.id
+		}
+	}
+	return -1
+}
+
+// goid parses the current goroutine's id from its stack header.
+func goid() uint64 {
+	var buf [64]byte
+	n := runtime.Stack(buf[:], false)
+	// "goroutine 123 ["
+	var id uint64
+	for i := len("goroutine "); i < n && buf[i] >= '0' && buf[i] <= '9'; i++ {
+		id = id*10 + uint64(buf[i]-'0')
+	}
+	return id
 }
 
 var sim atomic.Pointer[Sim]
@@ -331,15 +370,14 @@ func Install() {
 		var a uint64
 		if kind == vs.EvEnter {
 			a = scn.HashString(name)
-			if cur := s.current.Load(); cur >= 0 {
+			cur := s.who()
+			if cur >= 0 {
 				s.tasks[cur].stats.Funcs[name]++
 			} else if s.mainEnv != nil {
 				s.st.Funcs[name]++
 			}
-			if s.trace {
-				if cur := s.current.Load(); cur >= 0 {
-					s.tasks[cur].note = name
-				}
+			if s.trace && cur >= 0 {
+				s.tasks[cur].note = name
 			}
 		} else {
 			a = uint64(obj)
@@ -349,7 +387,7 @@ func Install() {
 }
 
 func (s *Sim) onEvent(kind int, a uint64, nav *world.Nav) {
-	cur := s.current.Load()
+	cur := s.who()
 	var e *Env
 	var t *task
 	if cur >= 0 {
@@ -449,6 +487,8 @@ func evName(k int) string {
 		return "load-mid"
 	case evDone:
 		return "done"
+	case evExtBlock:
+		return "blocked-outside-simulator"
 	}
 	return strconv.Itoa(k)
 }
